@@ -135,7 +135,7 @@ def seenOf (b : Block) : Seen := ⟨b.cid, b.cid.byteLen, b.data.length⟩
     (clean end), Inspect's own full-validation walk over the same bytes succeeds too and has seen
     exactly the scanned blocks — with each block's true data length, and the CID length the parser
     consumed. -/
-theorem scan_implies_inspectLoop (H : HashFn) (o : ReadOpts) (ht : o.trusted = false)
+theorem scan_implies_inspectLoop (H : HashFn) (hU : H.Uniform) (o : ReadOpts) (ht : o.trusted = false)
     (hcap : o.maxSection ≤ maxDigestAlloc) :
     ∀ (fuel : Nat) (w : Bytes) (bs : List Block) (acc : List Seen),
     scanAux H o fuel w = (bs, .eof) →
@@ -186,7 +186,8 @@ theorem scan_implies_inspectLoop (H : HashFn) (o : ReadOpts) (ht : o.trusted = f
         rw [hrest]; exact List.drop_left' hdl
       rw [htake, hdrop]
       have c3 : ¬ (b.data.length < l - n) := by rw [hdata, hdl]; omega
-      simp only [c3, ↓reduceIte, hsum, hver, Bool.not_true, Bool.false_eq_true]
+      have hpre : preOk H b.cid = true := by rw [preOk_eq_sumOk H hU b.cid b.data]; exact hsum
+      simp only [c3, ↓reduceIte, hsum, hver, hpre, Bool.not_true, Bool.false_eq_true]
       have hbl : l - n = b.data.length := by rw [hdata, hdl]
       rw [hbl, hrec, ← hb]
       simp
@@ -196,7 +197,7 @@ end Car
 namespace Car
 
 /-- Inspect's walk over well-formed, honest sections sees exactly them, with exact lengths. -/
-theorem inspectLoop_sections (H : HashFn) (o : ReadOpts) (validate : Bool) :
+theorem inspectLoop_sections (H : HashFn) (hU : H.Uniform) (o : ReadOpts) (validate : Bool) :
     ∀ (bs : List Block) (acc : List Seen) (fuel : Nat), bs.length < fuel →
     (∀ b ∈ bs, b.wf o.maxSection ∧ b.cid.digest.length ≤ maxDigestAlloc ∧
       (validate = true → sumOk H b.cid b.data = true ∧ verifies H b.cid b.data = true)) →
@@ -237,7 +238,8 @@ theorem inspectLoop_sections (H : HashFn) (o : ReadOpts) (validate : Bool) :
         rw [hrec]; simp [seenOf]
       | true =>
         obtain ⟨hs, hv⟩ := hval rfl
-        simp only [↓reduceIte, Nat.lt_irrefl, hs, hv, Bool.not_true, Bool.false_eq_true]
+        have hpre : preOk H b.cid = true := by rw [preOk_eq_sumOk H hU b.cid b.data]; exact hs
+        simp only [↓reduceIte, Nat.lt_irrefl, hs, hv, hpre, Bool.not_true, Bool.false_eq_true]
         simp only [seenOf] at hrec
         rw [hrec]; simp [seenOf]
 
